@@ -19,7 +19,9 @@ pub(crate) fn nth(mut args: ArgumentResult, visitor: &mut Visitor) -> SassResult
         return Err(("$n: List index may not be 0.", args.span()).into());
     }
 
-    if index.num.abs() > Number::from(list.len()) {
+    let index_int = index.assert_int_with_name("n", args.span())?;
+
+    if index_int.unsigned_abs() > list.len() as u64 {
         return Err((
             format!(
                 "$n: Invalid index {}{} for a list with {} elements.",
@@ -31,8 +33,6 @@ pub(crate) fn nth(mut args: ArgumentResult, visitor: &mut Visitor) -> SassResult
         )
             .into());
     }
-
-    let index_int = index.assert_int_with_name("n", args.span())?;
 
     Ok(list.remove(if index.num.is_positive() {
         debug_assert!(index_int > 0);
@@ -74,7 +74,7 @@ pub(crate) fn set_nth(mut args: ArgumentResult, visitor: &mut Visitor) -> SassRe
 
     let len = list.len();
 
-    if index.num.abs() > Number::from(len) {
+    if index_int.unsigned_abs() > len as u64 {
         return Err((
             format!(
                 "$n: Invalid index {}{} for a list with {} elements.",
